@@ -25,6 +25,11 @@ theorem evalFlag_eq (sh : Shared) (k : Kind) (f : Flag) :
 @[simp] theorem rotate_sClosed (sh : Shared) (k : RotKind) (c : Bool) : (rotate sh k c).sClosed = sh.sClosed := by
   cases k <;> cases c <;> rfl
 
+@[simp] theorem rotate_np_le (sh : Shared) (k : RotKind) (c : Bool) : sh.nextPartID ≤ (rotate sh k c).nextPartID := by
+  cases k <;> cases c <;> simp [rotate]
+@[simp] theorem rotate_ns_le (sh : Shared) (k : RotKind) (c : Bool) : sh.nextSegmentID ≤ (rotate sh k c).nextSegmentID := by
+  cases k <;> cases c <;> simp [rotate]
+
 theorem getD_set_true (l : List Bool) (i j : Nat) (h : l.getD j false = true) : (l.set i true).getD j false = true := by
   simp only [List.getD_eq_getElem?_getD, List.getElem?_set] at *
   split
@@ -51,7 +56,7 @@ include hsk
 
 theorem own_step_multi (hk : th.kind = .multi)
     (h : TI cfg sh i th) (hs : stepThread cfg i sh th c = some (sh', th', bc)) : TI cfg sh' i th' := by
-  obtain ⟨nofault, own, heldSpec, inRange, wf, waitSt, flagFalse, predFalse, predTrue, retSpec, closer, werr⟩ := h
+  obtain ⟨nofault, own, heldSpec, inRange, wf, waitSt, flagFalse, predFalse, predTrue, retSpec, closer, werr, retClosed⟩ := h
   simp only [progLen, hk] at inRange
   cases hres : th.result with
   | some st => simp [stepThread, hres, hk] at hs
@@ -68,7 +73,7 @@ theorem own_step_multi (hk : th.kind = .multi)
 
 theorem own_step_mediaPlain (sid : Nat) (hk : th.kind = .mediaPlain sid)
     (h : TI cfg sh i th) (hs : stepThread cfg i sh th c = some (sh', th', bc)) : TI cfg sh' i th' := by
-  obtain ⟨nofault, own, heldSpec, inRange, wf, waitSt, flagFalse, predFalse, predTrue, retSpec, closer, werr⟩ := h
+  obtain ⟨nofault, own, heldSpec, inRange, wf, waitSt, flagFalse, predFalse, predTrue, retSpec, closer, werr, retClosed⟩ := h
   simp only [progLen, hk] at inRange
   cases hres : th.result with
   | some st => simp [stepThread, hres, hk] at hs
@@ -85,7 +90,7 @@ theorem own_step_mediaPlain (sid : Nat) (hk : th.kind = .mediaPlain sid)
 
 theorem own_step_mediaBlock (sid msn tgt : Nat) (hk : th.kind = .mediaBlock sid msn tgt)
     (h : TI cfg sh i th) (hs : stepThread cfg i sh th c = some (sh', th', bc)) : TI cfg sh' i th' := by
-  obtain ⟨nofault, own, heldSpec, inRange, wf, waitSt, flagFalse, predFalse, predTrue, retSpec, closer, werr⟩ := h
+  obtain ⟨nofault, own, heldSpec, inRange, wf, waitSt, flagFalse, predFalse, predTrue, retSpec, closer, werr, retClosed⟩ := h
   simp only [progLen, hk] at inRange
   cases hres : th.result with
   | some st => simp [stepThread, hres, hk] at hs
@@ -102,7 +107,7 @@ theorem own_step_mediaBlock (sid msn tgt : Nat) (hk : th.kind = .mediaBlock sid 
 
 theorem own_step_hint (sid id : Nat) (hk : th.kind = .hint sid id)
     (h : TI cfg sh i th) (hs : stepThread cfg i sh th c = some (sh', th', bc)) : TI cfg sh' i th' := by
-  obtain ⟨nofault, own, heldSpec, inRange, wf, waitSt, flagFalse, predFalse, predTrue, retSpec, closer, werr⟩ := h
+  obtain ⟨nofault, own, heldSpec, inRange, wf, waitSt, flagFalse, predFalse, predTrue, retSpec, closer, werr, retClosed⟩ := h
   simp only [progLen, hk] at inRange
   cases hres : th.result with
   | some st => simp [stepThread, hres, hk] at hs
@@ -119,7 +124,7 @@ theorem own_step_hint (sid id : Nat) (hk : th.kind = .hint sid id)
 
 theorem own_step_writer (k : RotKind) (hk : th.kind = .writer k)
     (h : TI cfg sh i th) (hs : stepThread cfg i sh th c = some (sh', th', bc)) : TI cfg sh' i th' := by
-  obtain ⟨nofault, own, heldSpec, inRange, wf, waitSt, flagFalse, predFalse, predTrue, retSpec, closer, werr⟩ := h
+  obtain ⟨nofault, own, heldSpec, inRange, wf, waitSt, flagFalse, predFalse, predTrue, retSpec, closer, werr, retClosed⟩ := h
   simp only [progLen, hk] at inRange
   have hw : th.wait = .running := by
     cases hw : th.wait <;> simp_all [Kind.isRequester]
@@ -146,7 +151,7 @@ macro "cstep" : tactic => `(tactic| (
 
 theorem own_step_closer (hk : th.kind = .closer) (hlen : sh.sClosed.length = cfg.nStreams)
     (h : TI cfg sh i th) (hs : stepThread cfg i sh th c = some (sh', th', bc)) : TI cfg sh' i th' := by
-  obtain ⟨nofault, own, heldSpec, inRange, wf, waitSt, flagFalse, predFalse, predTrue, retSpec, closer, werr⟩ := h
+  obtain ⟨nofault, own, heldSpec, inRange, wf, waitSt, flagFalse, predFalse, predTrue, retSpec, closer, werr, retClosed⟩ := h
   simp only [progLen, hk] at inRange
   have hw : th.wait = .running := by
     cases hw : th.wait <;> simp_all [Kind.isRequester]
